@@ -26,8 +26,8 @@ def add(pid, stages, level, text, ref, note, technique, engine):
 add('C01', ['C01', 'C01W', 'C01N'], 'exploration',
     "Stateless exploration of a real cluster (3-4 real server.Server nodes: shards director, leader/follower controllers, WAL, Pebble on a crash-simulating filesystem; the real coordinator ShardController with a real StatusResource over the memory metadata provider; in-process transports) under the cooperative scheduler: 2 concurrent client writers (two-operation requests, with secondary-index entries) plus one fault per scenario (leader crash, crash+restart, spurious failover, swap of a follower / of the leader, swap with unreachable members, coordinator crash mid-election, lost NewTerm / BecomeLeader answers, the answer of any one coordinator RPC lost (which one is enumerated), a replication connection dropping under any one message (which one is enumerated), BecomeLeader timing out on a partitioned candidate, rolling isolation over four terms, swap + restore from snapshot + the new node leading); every schedule with <=1 (thorough <=2) non-default coarse scheduling choices; every acknowledged write must be present on every node that becomes leader later and on the final leader after healing. WAL sync stage (lib/walh): on a real WAL with SyncData on, an appender, a thread calling Sync and the WAL's own group-sync thread under the cooperative scheduler, the flush of the segment being a scheduling point: the offset reported as synced, and every completed sync (what a follower acknowledges, what a leader counts as stored), is covered by a flush that started after the entry was appended.",
     "DESIGN.md §2.5, §3 C01", CLUSTER_NOTE, T_SCHED + " over real servers and coordinator with crash/fault injection", 'sched')
-add('C02', ['C02', 'C02S', 'C02N', 'C02L'], 'exploration',
-    "Stage 1: same cluster executions with clients issuing colliding puts and gets; invoke/return stamped by scheduler step; per-key linearizability decided by porcupine (unknown outcomes may take effect once or never); stale reads only from deposed leaders; no read may return a value that is absent from the final committed log. Stage 2: fine-grained schedules of writers colliding on one key on a real RF=3 leader: the state reads are served from equals the fold of the committed log, responses match their requests.",
+add('C02', ['C02', 'C02S', 'C02P', 'C02N', 'C02L'], 'exploration',
+    "Stage 1: same cluster executions with clients issuing colliding puts and gets; invoke/return stamped by scheduler step; per-key linearizability decided by porcupine (unknown outcomes may take effect once or never); stale reads only from deposed leaders; no read may return a value that is absent from the final committed log. Stage 2: fine-grained schedules of writers colliding on one key on a real RF=3 leader: the state reads are served from equals the fold of the committed log, responses match their requests. Public read path stage (lib/pubrpc): range scans, lists and multi-gets over a fixed family of data sets around the limits of the message cutting (empty values, a value above the byte limit of a message in every position, more records than the count limit, empty tails) sent through the real public RPC handlers over a real leader controller: the messages put together are exactly the sorted reference, each value with its own key, a multi-get answered position by position.",
     "DESIGN.md §3 C02", CLUSTER_NOTE, T_SCHED + " + porcupine linearizability checking of every explored history", 'sched')
 add('C03', ['C03', 'C03S', 'C03F', 'C03L'], 'exploration',
     "Stage 1: same cluster executions; at the instant a follower hands Ack(o) to a term-T stream its synced log must equal the term-T leader's log at every offset <= o (shadow logs recorded at the WAL seam); committed prefixes of all replicas are compared with the final leader at the end. Schedule stage on the leader (h/c03s): one election of a real leader controller against two checking followers from a preloaded two-term log (with and without an uncommitted tail; one follower empty and restored from a snapshot, or holding a longer tail of the older term), every schedule of BecomeLeader, follower cursors, snapshot sender and ack receivers up to the deviation bound; the followers check every truncation, append and snapshot and must end with exactly the leader's log. Stage 2: explicit-state search of the follower as a protocol state machine (every sequence of 14 protocol events - new-term requests, appends of current / stale terms, truncation and its re-delivery, complete / interrupted / stale-term snapshot transfers, restart, crash - up to the depth, on a real follower controller): acknowledged entries stay stored with their leader's entry, the database is the fold of what the node holds.",
@@ -53,8 +53,8 @@ add('C09', ['C09'], 'model_checking',
 add('C10', ['C10', 'C10W'], 'fault_enumeration',
     "Enumeration of crash images (every subset of dirty pages, every torn-write prefix of the unsynced tail, index file absent/empty/every prefix, newest segment present/absent) and corruption images (every header byte x value set, length field boundary values, payload and index bytes, index truncations) of short WAL histories for both on-disk formats and every commit offset; each image is reopened and read through the real WAL. WAL sync stage (lib/walh): on a real WAL with SyncData on, an appender, a thread calling Sync and the WAL's own group-sync thread under the cooperative scheduler, the flush of the segment being a scheduling point: the offset reported as synced, and every completed sync (what a follower acknowledges, what a leader counts as stored), is covered by a flush that started after the entry was appended.",
     "DESIGN.md §2.4 E3a, §3 C10", "Images are built from real WAL runs on tmpfs; the durable image is what the code had msync'ed.", "exhaustive fault enumeration (crash images and byte corruptions) replayed against the real recovery code + stateless model checking of the WAL's group-sync thread (controlled cooperative scheduler, deviation-bounded DFS over schedules)", 'e3+sched')
-add('C11', ['C11'], 'exploration',
-    "Exhaustive input enumeration: comparator laws on all pairs and triples of a 6-symbol key universe up to length 3, the Pebble comparer contract on all pairs, and end-to-end reads (exact get, floor/ceiling/lower/higher, scans in both directions) on the real engine for every pair/triple of keys stored one per sstable block, after flush and after compaction, against a sorted reference; plus large hierarchical data sets.",
+add('C11', ['C11', 'C11P'], 'exploration',
+    "Exhaustive input enumeration: comparator laws on all pairs and triples of a 6-symbol key universe up to length 3, the Pebble comparer contract on all pairs, and end-to-end reads (exact get, floor/ceiling/lower/higher, scans in both directions) on the real engine for every pair/triple of keys stored one per sstable block, after flush and after compaction, against a sorted reference; plus large hierarchical data sets. Public read path stage (lib/pubrpc): range scans, lists and multi-gets over a fixed family of data sets around the limits of the message cutting (empty values, a value above the byte limit of a message in every position, more records than the count limit, empty tails) sent through the real public RPC handlers over a real leader controller: the messages put together are exactly the sorted reference, each value with its own key, a multi-get answered position by position.",
     "DESIGN.md §3 C11", "Pebble's own correctness for a lawful comparer is trusted; key universe and data-set sizes bounded as stated.", "exhaustive enumeration of a bounded input universe against a sorted reference on the real storage engine", 'enum')
 add('C12', ['C12'], 'model_checking',
     "Explicit-state BFS over sequences of write requests (puts, conditional puts/deletes with current/stale/absent expectations, range deletes incl. empty/inverted and around the 100-key threshold, composite requests) on a real kv.DB against a Go map model: per-operation status, version ids, modification counts, atomicity and read-your-writes inside a request.",
